@@ -50,13 +50,15 @@ func Core() Spec {
 		MintFresh(A, B2, B, "1", "0"),         // sealed
 		MintFresh(B, B1, B, "1", "0"),         // not the issuer
 		fix(Send(B, C, B1, "0.0000001", "0")), // 7 decimal places
-		SendAll(B, C, B1, Eps, false),         // overdraw by the smallest unit
-		SendAll(C, B, B2, Eps, true),          // overdraw, retired leg
-		fix(Retire(D, B1, "1")),               // no balance
-		fix(Seal(B, B1)),                      // not the issuer
-		fix(Cancel(C, B2, "2.000001")),        // more than held
-		fix(Send(B, C, B1, "-1", "0")),        // negative
-		fix(Send(B, B, B1, "1", "0.5")),       // self send
+		MintFresh(A, B1, B, "0.0000001", "0"), // 7 decimal places through minting
+		MintFresh(A, B1, B, "1", "0.1234567"),
+		SendAll(B, C, B1, Eps, false),   // overdraw by the smallest unit
+		SendAll(C, B, B2, Eps, true),    // overdraw, retired leg
+		fix(Retire(D, B1, "1")),         // no balance
+		fix(Seal(B, B1)),                // not the issuer
+		fix(Cancel(C, B2, "2.000001")),  // more than held
+		fix(Send(B, C, B1, "-1", "0")),  // negative
+		fix(Send(B, B, B1, "1", "0.5")), // self send
 		// values just outside what the stateless validation admits
 		// a sign after a leading decimal point: not a decimal numeral
 		fix(Send(B, C, B1, "0", ".-5")),
